@@ -37,7 +37,7 @@ DATA = 'ABCDEFGHIJKLMNOPQRSTUVWXYZ0123456789 .-/()'
 def tier_config(tier):
     if tier == 'thorough':
         return {'runs': 200000, 'wall': 780, 'det_probe': 8}
-    return {'runs': 8000, 'wall': 100, 'det_probe': 4}
+    return {'runs': 24000, 'wall': 150, 'det_probe': 4}
 
 
 def gen_value(rng):
